@@ -629,8 +629,9 @@ def run(c):
         k = rng.below(12)
         if k >= 2:
             e["flags"] &= ~(1 << 7) & (M32 - 1)           # no_result requests are refused by the client
-        if k >= 1:
-            # timeouts that cannot fire during the run; a few explicit zeros and stale/negative values
+        if True:
+            # only timeouts that cannot fire during the run (a small one is a race between the local timer and the
+            # response, not a property of the encoding); a few explicit zeros and stale/negative values
             kk = rng.below(12)
             if kk == 0:
                 e["flags"] |= 1 << 23
@@ -689,10 +690,40 @@ def run(c):
         if a != exp:
             side = "server" if a.split(" | ")[0] != exp.split(" | ")[0] else "client"
             c.oracle_fail(l, "end-to-end: what arrives at the %s differs from what the other side set" % side, l)
+    # ------------------------------------------------------------ phase 5: the packet length limit (thorough only: 16 MiB bodies)
+    if c.thorough or any(l.startswith("rpcextra.reqbig ") for l in replay_lines):
+        LIMIT = 16777215 - 16
+        lines5 = [l for l in replay_lines if l.startswith("rpcextra.reqbig ")]
+        zero = "0 0 - 0 - - x 0 0 0 0 p:0:0 0:0:0:0:x x"
+        if c.thorough:
+            for tl2 in (0, 1):
+                for d in (-1, 0, 1):
+                    lines5.append("rpcextra.reqbig %d %d 0 %d %s" % (LIMIT - 8 - 4 * tl2 + d, 1 + rng.below(1000), tl2, zero))
+            ex = g.reqextra(flags=(1 << 20) | (1 << 9), consistent=True)
+            ex["sf"] = rng.bytes(300)
+            hdr = 8 + 4 + 8 + 4 + 8 + (4 + 300)      # query id, tag, actor, flags, requester id, string(300) = 4-byte header + 300
+            for d in (0, 1):
+                lines5.append("rpcextra.reqbig %d 5 7 0 %s" % (LIMIT - hdr + d, w_reqextra(ex)))
+        res5 = c.tie("limits", lines5, impl, model, jobs=4)
+        for l, a, _ in res5:
+            f = l.split(" ")
+            try:
+                n, actor, tl2, e = int(f[1]), int(f[3]), f[4] == "1", p_reqextra(f[5:])
+            except (ValueError, IndexError, AssertionError):
+                continue
+            p = a.split(" ")
+            if a != "big" and p[0] == "ok":
+                if int(p[1]) > LIMIT:
+                    c.oracle_fail(l, "preparePacket accepted a packet body of %s bytes, above maxPacketLen-packetOverhead" % p[1], l)
+                if p[3] != "ok" or int(p[4]) != n or " ".join(p[5:]) != w_reqextra(norm_reqextra(e)):
+                    c.oracle_fail(l, "largest-size request does not arrive unchanged at the server", l)
+            elif a == "big":
+                if e["flags"] == 0 and actor == 0 and n + 8 + (4 if tl2 else 0) <= LIMIT:
+                    c.oracle_fail(l, "preparePacket rejected a packet body within maxPacketLen-packetOverhead", l)
     c.extra["rule"] = ("request lines: all/sampled combinations of the 13 value-carrying request mask bits, random extras (3/5 mask-consistent, "
                        "2/5 with stale values under clear bits), boundary ints/strings/dictionaries with duplicate and unsorted keys, both body "
                        "formats, actor 0/non-0, bodies incl. too short and wrapper-tag-prefixed; response lines: all 512 combinations of the "
                        "9 response mask bits x both formats, random request masks, nil/rpc.Error(code 0 too)/wrapped/ErrNoHandler/other errors; "
                        "malformed: truncations, bit flips, inserted tags, duplicated wrappers, random bytes for the four parsers; "
-                       "fwd: a sample of the request lines relayed once through ForwardAndFlush over a handshaken TCP PacketConn pair; loopback: random calls through a real rpc.Server/rpc.Client pair over TCP 127.0.0.1 (timeouts that cannot fire); "
+                       "limits (thorough): bodies at maxPacketLen-packetOverhead -1/0/+1 in both formats and with an extra; fwd: a sample of the request lines relayed once through ForwardAndFlush over a handshaken TCP PacketConn pair; loopback: random calls through a real rpc.Server/rpc.Client pair over TCP 127.0.0.1 (timeouts that cannot fire); "
                        "distinct = distinct line text; every line is a different input")
